@@ -121,6 +121,8 @@ def check_field_flow(ctx, rep, rule: str, tr: Transformer, visitor_cls: Optional
                         rep.ok(ctor_rule, ccons, f"{verdict} dependence on the input's {member}", loc)
                     elif verdict == "undecided":
                         rep.undecided(ctor_rule, ccons, detail, loc)
+                    elif verdict == "filtered":
+                        rep.violation(ctor_rule, ccons, f"{detail}; {reason}", loc)
                     else:
                         rep.violation(
                             ctor_rule, ccons,
@@ -165,3 +167,50 @@ def position_visited(ctx, tr: Transformer, cls: str, member: str, sub_attr: Opti
                     if (rt & hier) or not rt:
                         return f, cs.node
     return None
+
+
+def check_changed_flag(ctx, rep, rule: str, tr: Transformer):
+    """A handler that returns its input node unchanged under a `changed`-style flag
+    must accumulate that flag over all visited children (contradiction rule:
+    a flag re-assigned per iteration without reading itself lets only the last
+    child decide)."""
+    ix, T = ctx.ix, ctx.typer
+    from ..cfg import iter_stmts
+
+    for f in tr.funcs:
+        if not f.cls or len(f.params) < 2:
+            continue
+        fl = tr.flows[f.qualname]
+        inputs = set(f.params[1:])
+        for st in iter_stmts(f.body):
+            if not isinstance(st, ast.Return) or st.value is None:
+                continue
+            vals = st.value.elts if isinstance(st.value, ast.Tuple) else [st.value]
+            if not any(isinstance(v, ast.Name) and v.id in inputs for v in vals):
+                continue
+            flags = set()
+            for t in fl.control_tests(st):
+                for n in ast.walk(t):
+                    if isinstance(n, ast.Name) and n.id not in inputs and n.id != fl.selfname:
+                        flags.add(n.id)
+            for flag in sorted(flags):
+                # definitions of the flag inside loops
+                bad = None
+                n_loop_defs = 0
+                for loop in iter_stmts(f.body):
+                    if not isinstance(loop, (ast.For, ast.While)):
+                        continue
+                    for s in iter_stmts(loop.body):
+                        if isinstance(s, ast.Assign) and any(isinstance(t, ast.Name) and t.id == flag for t in s.targets):
+                            n_loop_defs += 1
+                            if flag not in {n.id for n in ast.walk(s.value) if isinstance(n, ast.Name)}:
+                                bad = s
+                        elif isinstance(s, ast.AugAssign) and isinstance(s.target, ast.Name) and s.target.id == flag:
+                            n_loop_defs += 1
+                if n_loop_defs == 0:
+                    continue
+                cons = construct_of(f, f"unchanged-flag:{flag}")
+                if bad is not None:
+                    rep.violation(rule, cons, f"`{flag}` is overwritten in every iteration (`{ast.unparse(bad)}`) and then decides whether the original node is returned: only the last child counts, rewritten children before it are discarded", f"{f.path}:{bad.lineno}")
+                else:
+                    rep.ok(rule, cons, f"`{flag}` accumulates over all children", f.loc())
